@@ -103,9 +103,12 @@ func (b *bleveIndex) Search(terms []string) ([]string, error) {
 	b.mu.RLock()
 	defer b.mu.RUnlock()
 
+	// the terms belong to the caller (a parsed query that may be evaluated again): quote a copy
+	quoted := make([]string, len(terms))
 	for i, term := range terms {
+		quoted[i] = term
 		if strings.Contains(term, " ") {
-			terms[i] = fmt.Sprintf("\"%s\"", term)
+			quoted[i] = fmt.Sprintf("\"%s\"", term)
 		}
 	}
 
@@ -115,7 +118,7 @@ func (b *bleveIndex) Search(terms []string) ([]string, error) {
 		return nil, err
 	}
 
-	query := bleve.NewQueryStringQuery(strings.Join(terms, " "))
+	query := bleve.NewQueryStringQuery(strings.Join(quoted, " "))
 	search := bleve.NewSearchRequestOptions(query, int(count), 0, false)
 
 	res, err := b.index.Search(search)
